@@ -46,11 +46,21 @@ func newObjectStore(d *kit.Dataset, order []int) *objectz.ObjectStore[*kit.Perso
 		}
 		return it
 	})
+	// string accessors hand out a pointer into the live object (one string per object and field, kept for the life
+	// of the store), as an application's accessor returning &entity.Name does
+	live := map[string]*string{} // filled here, only read afterwards (queries may run concurrently)
+	for i := range d.People {
+		for f, v := range d.People[i].F {
+			if v.K == "s" {
+				s := v.S
+				live[d.People[i].ID+"\x00"+f] = &s
+			}
+		}
+	}
 	str := func(f string) func(p *kit.Person) *string {
 		return func(p *kit.Person) *string {
 			if v := p.F[f]; v.K == "s" {
-				s := v.S
-				return &s
+				return live[p.ID+"\x00"+f]
 			}
 			return nil
 		}
